@@ -303,6 +303,34 @@ let fmt_ev (e : os_ev) : Stdlib.String.t =
 let starts_with (p : Stdlib.String.t) (s : Stdlib.String.t) =
   String.length s >= String.length p && String.sub s 0 (String.length p) = p
 
+
+(* ---------- C20: zippychord dictionary from the dump ---------- *)
+let read_zout t : zout =
+  let kind = next_n t in let ne = next_int t = 1 in let osc = next_n t in ZO (kind, ne, osc)
+let rec read_ztree t : zchords =
+  let n = next_int t in
+  ZChords (repeat n (fun () ->
+    let nk = next_int t in
+    let keys = repeat nk (fun () -> next_n t) in
+    let no = next_int t in
+    let outs = repeat no (fun () -> read_zout t) in
+    let hasf = next_int t = 1 in
+    let fol = if hasf then Some (read_ztree t) else None in
+    (keys, (outs, fol))))
+let read_zippy (dump : Stdlib.String.t list) : zcfg option =
+  match List.find_opt (starts_with "ZIPPY") dump with
+  | None -> None
+  | Some line when starts_with "ZIPPY none" line -> None
+  | Some line ->
+    let t = mk_toks line in
+    ignore (next t);
+    let wait = next_n t in let dl = next_n t in let ss = next_n t in
+    let np = next_int t in
+    let punct = repeat np (fun () -> read_zout t) in
+    let tt = mk_toks (List.find (starts_with "ZTREE") dump) in
+    ignore (next tt);
+    Some { zc_wait = wait; zc_deadline = dl; zc_ss = ss; zc_punct = punct; zc_chords = read_ztree tt }
+
 let run_ksim (dump : Stdlib.String.t list) (hist : Stdlib.String.t) (out : Buffer.t) =
   let hdr = List.find (starts_with "LCFG") dump in
   let t = mk_toks hdr in
@@ -359,6 +387,20 @@ let run_ksim (dump : Stdlib.String.t list) (hist : Stdlib.String.t) (out : Buffe
               kc_dyn_max_presses = dyn_max; kc_dyn_replay_recorded = dyn_rec; kc_switch_max_key_timing = smkt;
               kc_mm_smooth_diagonals = mm_smooth; kc_ignore_min = n_of_int 676; kc_ignore_max = n_of_int 685 } in
   let k = ref (k_init (init_layout pause)) in
+  let zc = read_zippy dump in
+  let z = ref z_init in
+  (* every key press / release kanata emits goes through the zippychord filter *)
+  let zfilter (evs : os_ev list) : os_ev list =
+    match zc with
+    | None -> evs
+    | Some c ->
+      List.concat_map (fun e ->
+        let conv = List.map (function ZP o -> KDown o | ZR o -> KUp o) in
+        match e with
+        | KDown o -> let (z', out) = z_press c !z o in z := z'; conv out
+        | KUp o -> let (z', out) = z_release c !z o in z := z'; conv out
+        | e -> [e]) evs in
+  let zidle () = (match zc with None -> true | Some _ -> z_is_idle !z) in
   let tick = ref 0 in
   let pending = ref [] in
   (try
@@ -374,7 +416,7 @@ let run_ksim (dump : Stdlib.String.t list) (hist : Stdlib.String.t) (out : Buffe
           k := k';
           if kind = 'r' then
             Buffer.add_string out (Printf.sprintf "R@%d %s : %s\n" !tick rest (String.concat " " (List.map fmt_ev evs)))
-          else pending := !pending @ List.map fmt_ev evs
+          else pending := !pending @ List.map fmt_ev (zfilter evs)
         | 'v' ->
           (match String.split_on_char ',' rest with
            | [op; x; y] ->
@@ -383,7 +425,7 @@ let run_ksim (dump : Stdlib.String.t list) (hist : Stdlib.String.t) (out : Buffe
              k := set_k_layout l' !k
            | _ -> failwith "bad v token")
         | 'q' ->
-          let idle = k_is_idle !k in
+          let idle = k_is_idle !k && zidle () in
           let (k', block) = k_can_block cfg !k (n_of_int 1) in
           k := k';
           Buffer.add_string out (Printf.sprintf "Q@%d idle=%d block=%d\n" !tick (if idle then 1 else 0) (if block then 1 else 0))
@@ -391,7 +433,8 @@ let run_ksim (dump : Stdlib.String.t list) (hist : Stdlib.String.t) (out : Buffe
           for _ = 1 to int_of_string rest do
             let (k', evs) = unwrap (k_tick cfg !k) in
             k := k'; incr tick;
-            pending := !pending @ List.map fmt_ev evs;
+            pending := !pending @ List.map fmt_ev (zfilter evs);
+            (match zc with Some _ -> z := z_tick ((!k).k_caps_word <> None) !z | None -> ());
             if !pending <> [] then begin
               Buffer.add_string out (Printf.sprintf "@%d %s\n" !tick (String.concat " " !pending));
               pending := []
@@ -405,7 +448,7 @@ let run_ksim (dump : Stdlib.String.t list) (hist : Stdlib.String.t) (out : Buffe
     let mv = (match kv.k_mmv with Some _ -> 1 | None -> 0) + (match kv.k_mmh with Some _ -> 1 | None -> 0) in
     Buffer.add_string out (Printf.sprintf "END tick=%d down=[%s] nstates=%d layer=%d idle=%d scroll=%d move=%d\n"
       !tick (String.concat " " (List.map (fun x -> string_of_int (int_of_n x)) kv.k_prev_keys))
-      (List.length kv.k_layout.states) (int_of_n (current_layer kv.k_layout)) (if k_is_idle kv then 1 else 0) sc mv)
+      (List.length kv.k_layout.states) (int_of_n (current_layer kv.k_layout)) (if k_is_idle kv && zidle () then 1 else 0) sc mv)
   with
   | Model_panic s -> Buffer.add_string out (Printf.sprintf "PANIC tick=%d %s\n" !tick s)
   | Model_fuel -> Buffer.add_string out (Printf.sprintf "PANIC tick=%d OUT-OF-FUEL\n" !tick))
